@@ -342,6 +342,16 @@ def collect_settings(v, out):
     return out
 
 
+def post_scrub_twice_disjoint(r):
+    """with make_unique two calls on the same argument never hand out the same setting object (so no returned object is
+    one that is stored anywhere else, e.g. on an AnsiFormat member)"""
+    again = r.SP._scrub_ansi_settings(r.old_settings, True)
+    for x in r.result:
+        if index_is(again, x) >= 0:
+            return False
+    return True
+
+
 def post_scrub_unique(r):
     """with make_unique every returned setting is a new object: it is none of the caller's setting objects (so a
     stop marker can never alias a setting that is stored somewhere else) and no object is returned twice"""
